@@ -320,7 +320,16 @@ impl Router {
             Ok(hostname) => {
                 //FIXME: necessary ti build on stable rust (1.35), can be removed once 1.36 is there
                 let mut empty = true;
-                if let Some((_, paths)) = self.tree.domain_lookup_mut(hostname.as_bytes(), false) {
+                // `domain_lookup_mut` resolves a literal segment through a
+                // stored regex segment too: only a leaf stored under this
+                // very hostname is this hostname's leaf. (Filing the rules
+                // of `x1.example.com` under the leaf of `/x.*/.example.com`
+                // would serve them to every host that regex matches.)
+                if let Some((_, paths)) = self
+                    .tree
+                    .domain_lookup_mut(hostname.as_bytes(), false)
+                    .filter(|(key, _)| key.as_slice() == hostname.as_bytes())
+                {
                     empty = false;
                     let before = paths.len();
                     if !paths.iter().any(|(p, m, _)| p == path && m == method) {
@@ -394,7 +403,12 @@ impl Router {
         match ::idna::domain_to_ascii(hostname) {
             Ok(hostname) => {
                 let should_delete = {
-                    let paths_opt = self.tree.domain_lookup_mut(hostname.as_bytes(), false);
+                    // only the leaf stored under this very hostname (see
+                    // `add_tree_rule`)
+                    let paths_opt = self
+                        .tree
+                        .domain_lookup_mut(hostname.as_bytes(), false)
+                        .filter(|(key, _)| key.as_slice() == hostname.as_bytes());
 
                     if let Some((_, paths)) = paths_opt {
                         paths.retain(|(p, m, _)| p != path || m != method);
@@ -423,7 +437,10 @@ impl Router {
                     // the `partial_key == b"*"` case and would always read
                     // None for a wildcard host, weakening the check).
                     debug_assert!(
-                        self.tree.domain_lookup_mut(&removed_host, false).is_none(),
+                        self.tree
+                            .domain_lookup_mut(&removed_host, false)
+                            .filter(|(key, _)| key == &removed_host)
+                            .is_none(),
                         "a domain whose last rule was removed must be unreachable",
                     );
                 }
